@@ -7,7 +7,9 @@ pub mod c07;
 pub mod c08;
 pub mod c11;
 pub mod c12;
+pub mod c14;
 pub mod c31;
+pub mod c32;
 pub mod c36;
 
 pub fn registry() -> &'static [Check] {
@@ -19,7 +21,9 @@ pub fn registry() -> &'static [Check] {
         Check { meta: &c08::META, run: c08::run, shards: (16, 16) },
         Check { meta: &c11::META, run: c11::run, shards: (16, 16) },
         Check { meta: &c12::META, run: c12::run, shards: (16, 16) },
+        Check { meta: &c14::META, run: c14::run, shards: (16, 16) },
         Check { meta: &c31::META, run: c31::run, shards: (8, 16) },
+        Check { meta: &c32::META, run: c32::run, shards: (16, 16) },
         Check { meta: &c36::META, run: c36::run, shards: (8, 16) },
     ];
     R
